@@ -66,17 +66,33 @@ type genState struct {
 
 func (r gRule) xml() string {
 	var b strings.Builder
-	fmt.Fprintf(&b, `<entry name="%s"><action>%s</action><from><member>%s</member></from><to><member>%s</member></to>`,
-		xmlEsc(r.Name), r.Action, r.From, r.To)
-	b.WriteString(members("source", r.Src) + members("destination", r.Dst) + members("service", r.Srv))
-	or := func(v, d string) string {
-		if v == "" {
-			return d
-		}
-		return v
+	zones := func(tag, z string) string { return members(tag, strings.Split(z, ",")) }
+	fmt.Fprintf(&b, `<entry name="%s">`, xmlEsc(r.Name))
+	if r.Action != "-" {
+		fmt.Fprintf(&b, `<action>%s</action>`, r.Action)
 	}
-	fmt.Fprintf(&b, `<application><member>%s</member></application><rule-type>%s</rule-type><log-start>%s</log-start><log-end>%s</log-end>`,
-		or(r.App, "any"), or(r.RuleType, "interzone"), or(r.LogStart, "yes"), or(r.LogEnd, "yes"))
+	b.WriteString(zones("from", r.From) + zones("to", r.To))
+	b.WriteString(members("source", r.Src) + members("destination", r.Dst) + members("service", r.Srv))
+	// "" = the value every Netspoc rule has, "-" = the element is absent
+	el := func(tag, v, d string) {
+		switch v {
+		case "-":
+		case "":
+			fmt.Fprintf(&b, `<%s>%s</%s>`, tag, d, tag)
+		default:
+			fmt.Fprintf(&b, `<%s>%s</%s>`, tag, v, tag)
+		}
+	}
+	switch r.App {
+	case "-":
+	case "":
+		b.WriteString(`<application><member>any</member></application>`)
+	default:
+		b.WriteString(members("application", strings.Split(r.App, ",")))
+	}
+	el("rule-type", r.RuleType, "interzone")
+	el("log-start", r.LogStart, "yes")
+	el("log-end", r.LogEnd, "yes")
 	if r.LogSetting != "" {
 		b.WriteString("<log-setting>" + r.LogSetting + "</log-setting>")
 	}
@@ -295,12 +311,35 @@ func (w *world) rule(v *gVsys, name string) gRule {
 		r.LogSetting = "TDC-Panorama"
 	}
 	if w.rng.Chance(8) {
-		r.Extra = Pick(w.rng, []string{"<description>x  y</description>",
-			"<source-user><member>foo</member></source-user>", "<category><member>any</member></category>",
-			"<tag>\n <member>t1</member>\n</tag>"})
+		r.Extra = Pick(w.rng, unknownAttrs)
+	}
+	// not what Netspoc writes: hand-made device rules, rules of older releases, raw rules
+	if w.rng.Chance(12) {
+		r.RuleType = Pick(w.rng, ruleTypes)
+	}
+	if w.rng.Chance(5) {
+		r.LogStart = Pick(w.rng, []string{"-", "no"})
+	}
+	if w.rng.Chance(5) {
+		r.LogEnd = Pick(w.rng, []string{"-", "no"})
+	}
+	if w.rng.Chance(4) {
+		r.To = r.To + "," + Pick(w.rng, w.zones)
+		r.To = strings.Join(uniq(strings.Split(r.To, ",")), ",")
 	}
 	return r
 }
+
+// values of <rule-type>: "-" = absent (PAN-OS: universal), "" = interzone (what Netspoc writes)
+var ruleTypes = []string{"-", "universal", "intrazone", ""}
+
+// elements the planner does not know by name (compared as text by unknownEq)
+var unknownAttrs = []string{"<description>x  y</description>",
+	"<source-user><member>foo</member></source-user>", "<category><member>any</member></category>",
+	"<tag>\n <member>t1</member>\n</tag>", "<disabled>yes</disabled>", "<disabled>no</disabled>",
+	"<negate-source>yes</negate-source>", "<profile-setting><group><member>strict</member></group></profile-setting>",
+	"<tag><member>t1</member><member>t2</member></tag>", ""}
+
 
 func (w *world) deviceVsys(name string) gVsys {
 	v := gVsys{Name: name, Display: "FW-managed-by-Netspoc"}
@@ -621,34 +660,43 @@ func (w *world) mutateOne(v *gVsys, k int) {
 				}
 				return cur
 			}
-			// exactly one of the attributes the planner compares
-			switch rng.Intn(9) {
+			// exactly one of the attributes the planner compares (and the property says must be equal),
+			// changed on the target side only; "-" makes the element absent on that side
+			switch rng.Intn(12) {
 			case 0:
-				r.Action = other(r.Action, "allow", "drop")
+				r.Action = other(r.Action, Pick(rng, []string{"allow", "drop", "deny"}), "allow", "drop")
 				w.note("changeHdr:action")
 			case 1:
-				r.From = other(r.From, w.zones...)
+				if rng.Bool() {
+					r.From = other(r.From, w.zones...)
+				} else {
+					r.From = r.From + "," + other(strings.Split(r.From, ",")[0], w.zones...)
+				}
 				w.note("changeHdr:from")
 			case 2:
-				r.To = other(r.To, w.zones...)
+				if rng.Bool() {
+					r.To = other(r.To, w.zones...)
+				} else {
+					r.To = r.To + "," + other(strings.Split(r.To, ",")[0], w.zones...)
+				}
 				w.note("changeHdr:to")
 			case 3:
-				r.App = other(r.App, "", "ssl")
+				r.App = other(r.App, Pick(rng, []string{"", "ssl", "ssl,web-browsing", "-"}), "", "ssl")
 				w.note("changeHdr:application")
 			case 4:
-				r.LogStart = other(r.LogStart, "", "no")
-				w.note("changeHdr:log-start")
+				r.LogStart = other(r.LogStart, Pick(rng, []string{"", "no", "-"}), "", "no")
+				w.note("changeHdr:log-start:" + r.LogStart)
 			case 5:
-				r.LogEnd = other(r.LogEnd, "", "no")
-				w.note("changeHdr:log-end")
+				r.LogEnd = other(r.LogEnd, Pick(rng, []string{"", "no", "-"}), "", "no")
+				w.note("changeHdr:log-end:" + r.LogEnd)
 			case 6:
 				r.LogSetting = other(r.LogSetting, "", "TDC-Panorama")
 				w.note("changeHdr:log-setting")
-			case 7:
-				r.RuleType = other(r.RuleType, "", "universal")
-				w.note("changeHdr:rule-type")
-			case 8:
-				r.Extra = other(r.Extra, "<description>changed</description>", "<description>other</description>")
+			case 7, 8, 9:
+				r.RuleType = other(r.RuleType, Pick(rng, ruleTypes), "-", "")
+				w.note("changeHdr:rule-type:" + r.RuleType)
+			case 10, 11:
+				r.Extra = other(r.Extra, Pick(rng, unknownAttrs), "<description>changed</description>", "")
 				w.note("changeHdr:unknown")
 			}
 		}
@@ -909,8 +957,138 @@ func (w *world) renumber(v *gVsys) {
 	}
 }
 
+// genGroupMix builds the shape in which Netspoc has renumbered its groups: device and target
+// draw their group names from the same small pool, the contents are permuted; a matched rule's
+// list gets an additional group (an inserted element of the list diff) whose content a device
+// group of another name already has, next to a group pair that is or is not equalisable
+// incrementally; device groups may be claimed by an earlier rule.
+func genGroupMix(rng *RNG) caseInput {
+	w := newWorld(rng)
+	w.note("groupMix")
+	in := caseInput{Shared: []string{w.sharedA[0], w.sharedS[0]}, Mode: "groupmix"}
+	pool := []string{"a_m", "c_t", "g1", "g2", "g3", "g10", "p", "q", "G7", "x_grp"}
+	Shuffle(rng, pool)
+	nG := 2 + rng.Intn(3)
+	d := gVsys{Name: "vsys1", Display: "FW-managed-by-Netspoc"}
+	addrNames := func(lo, hi int) []string { return w.pickAddrs(lo, hi) }
+	for i := 0; i < nG; i++ {
+		size := 1 + rng.Intn(3)
+		if i == 1 || rng.Chance(30) {
+			size = 4 + rng.Intn(3)
+		}
+		d.Groups = append(d.Groups, gGrp{Name: pool[i], Members: addrNames(size, size)})
+	}
+	plain := func() []string {
+		if rng.Chance(35) {
+			return nil
+		}
+		return addrNames(1, 2)
+	}
+	// device rules: each names one or two groups, some also addresses
+	nR := 2 + rng.Intn(3)
+	if nR < nG {
+		nR = nG
+	}
+	for i := 0; i < nR; i++ {
+		r := w.rule(&d, fmt.Sprintf("r%d", i+1))
+		r.RuleType, r.LogStart, r.LogEnd, r.Extra = "", "", "", ""
+		lst := append(plain(), d.Groups[i%nG].Name)
+		if rng.Chance(40) {
+			lst = append(lst, d.Groups[rng.Intn(nG)].Name)
+		}
+		lst = uniq(lst)
+		if rng.Bool() {
+			r.Src, r.Dst = lst, []string{"any"}
+		} else {
+			r.Dst, r.Src = lst, []string{"any"}
+		}
+		d.Rules = append(d.Rules, r)
+	}
+	w.complete(&d, 0)
+	nG = len(d.Groups)
+	// target: the same rulebase, group names permuted over the contents
+	t := cloneVsys(d)
+	t.Display = ""
+	perm := append([]string{}, pool[:nG+1+rng.Intn(2)]...)
+	Shuffle(rng, perm)
+	for i := range t.Groups {
+		replaceName(&t, t.Groups[i].Name, "\x00"+perm[i])
+	}
+	for i := range t.Groups {
+		replaceName(&t, "\x00"+perm[i], perm[i])
+		t.Groups[i].Name = perm[i]
+	}
+	w.note("grpPermuteNames")
+	// one or two matched rules get an additional group whose content a device group has
+	// (under another name after the permutation), and one of their groups is shrunk or grown
+	for n := 1 + rng.Intn(2); n > 0 && len(t.Rules) > 0; n-- {
+		r := &t.Rules[rng.Intn(len(t.Rules))]
+		lst := &r.Src
+		if len(r.Src) == 1 && r.Src[0] == "any" {
+			lst = &r.Dst
+		}
+		src := d.Groups[rng.Intn(nG)]
+		var free []string
+		for _, nm := range pool {
+			used := false
+			for _, g := range t.Groups {
+				if g.Name == nm {
+					used = true
+				}
+			}
+			if !used {
+				free = append(free, nm)
+			}
+		}
+		if len(free) == 0 {
+			break
+		}
+		ng := gGrp{Name: free[0], Members: append([]string{}, src.Members...)}
+		if rng.Chance(25) {
+			ng.Members = uniq(append(ng.Members, addrNames(1, 1)...))
+		}
+		t.Groups = append(t.Groups, ng)
+		*lst = uniq(append(*lst, ng.Name))
+		w.note("listInsertKnownGroup")
+		// a group of the same list: shrink a lot / a little / grow
+		for _, m := range *lst {
+			for gi := range t.Groups {
+				g := &t.Groups[gi]
+				if g.Name != m || g.Name == ng.Name {
+					continue
+				}
+				switch rng.Intn(4) {
+				case 0, 1:
+					if len(g.Members) > 2 {
+						g.Members = g.Members[:1]
+						w.note("grpDelMany")
+					}
+				case 2:
+					g.Members = uniq(append(g.Members, addrNames(1, 2)...))
+					w.note("grpAdd")
+				}
+			}
+		}
+	}
+	for j, n := 0, rng.Intn(3); j < n; j++ {
+		w.mutate(&t)
+	}
+	breakCycles(&t)
+	w.renumber(&t)
+	w.complete(&t, 0)
+	devName := "localhost.localdomain"
+	in.gen = &genState{w: w, devName: devName, tgt: []gVsys{cloneVsys(t)}}
+	in.Dev = configXML(devName, []gVsys{d}, rng.Bool())
+	in.Spoc = configXML(devName, []gVsys{t}, false)
+	in.Mutations = w.mutations
+	return in
+}
+
 // genCase builds one case.
 func genCase(rng *RNG) caseInput {
+	if rng.Chance(12) {
+		return genGroupMix(rng)
+	}
 	w := newWorld(rng)
 	if rng.Chance(25) {
 		w.plain = true
@@ -947,6 +1125,9 @@ func genCase(rng *RNG) caseInput {
 			if mode == "near" {
 				for j, n := 0, 1+rng.Intn(4); j < n; j++ {
 					w.mutate(&t)
+				}
+				if rng.Chance(15) {
+					w.mutateOne(&t, 7)
 				}
 			} else if rng.Bool() && len(t.Groups) > 0 {
 				for j := range t.Groups {
